@@ -341,11 +341,19 @@ def run(seed, tier, replay=None):
                 add("beta.hdcov", f"{a} {b} 60 {C.flist(xs)}", kind="hdcov", a=a, b=b, xs=xs, impl=hcov)
 
         # ---- broadcasting of all four over (a,b) arrays x coverage / x arrays, and scalars
-        for _ in range(3 if tier == "quick" else 20):
-            n1, n2 = rng.randint(2, 40), rng.randint(2, 40)
-            i1, i2 = rng.randint(1, n1), rng.randint(1, n2)
-            A = np.array([[i1], [i2]])
-            B = np.array([[n1 + 1 - i1], [n2 + 1 - i2]])
+        for it in range(8 if tier == "quick" else 60):
+            # the same positive integers in another container: a Python-int list or an integer ndarray of any width that holds
+            # each parameter (their sum a+b = n+1 need not fit: the arithmetic on them is the library's, not the caller's)
+            dt = None if it < 2 else rng.choice(C.INT_DTYPES)
+            cap = 250 if dt is None else min(250, int(np.iinfo(dt).max))
+            n1, n2 = rng.randint(2, 40), rng.randint(max(2, cap - 20), 2 * cap - 2)
+            i1 = rng.randint(1, n1)
+            i2 = rng.randint(max(1, n2 + 1 - cap), min(n2, cap))
+            rep.count("ab_container=%s" % (dt or "default_int"))
+            A = np.array([[i1], [i2]], dtype=dt)
+            B = np.array([[n1 + 1 - i1], [n2 + 1 - i2]], dtype=dt)
+            if [int(v) for v in A.ravel()] != [i1, i2] or [int(v) for v in B.ravel()] != [n1 + 1 - i1, n2 + 1 - i2]:
+                raise AssertionError("harness: the container does not hold the parameters exactly")
             cs = np.array([rng.random(), rng.random(), 0.5])
             xs = np.array([rng.random(), rng.random(), 0.25])
             for fn, arg in (("beta_equal_tailed_interval", cs), ("beta_highest_density_interval", cs),
@@ -367,8 +375,12 @@ def run(seed, tier, replay=None):
                             # the bisection variants run more iterations on arrays: agreement to the bisection tolerance
                             lim = 0.0 if "equal_tailed" in fn else (4e-10 if "interval" in fn else 2e-6)
                             if not abs(float(o[r_, c_]) - float(v)) <= lim:
-                                rep.violate(what=f"{fn}: broadcast element differs from the scalar call",
-                                            input=dict(a=aa, b=bb, arg=float(arg[c_])), expected=float(v), observed=float(o[r_, c_]), call=fn)
+                                rep.violate(what=f"{fn}: broadcast element differs from the scalar call"
+                                                 + (f" (a, b given as {dt} arrays, each parameter representable)" if dt else ""),
+                                            input=dict(a=aa, b=bb, arg=float(arg[c_]), ab_container=dt or "default_int",
+                                                       A=[int(v_) for v_ in A.ravel()], B=[int(v_) for v_ in B.ravel()]),
+                                            expected=float(v), observed=float(o[r_, c_]),
+                                            call=f"{fn}(np.array({[[int(x)] for x in A.ravel()]}, dtype={dt!r}), np.array({[[int(x)] for x in B.ravel()]}, dtype={dt!r}), np.array({[float(x) for x in arg]}))[{r_},{c_}] vs {fn}({aa}, {bb}, {float(arg[c_])!r})")
 
     replies = drv.run(reqs)
 
